@@ -8,7 +8,7 @@ import ast
 from .expr import txt, unawait
 
 KINDS = ('str', 'bytes', 'bytearray', 'dict', 'list', 'tuple', 'none', 'int', 'bool',
-         'float', 'other')
+         'float', 'other', 'any')      # 'any': kind unknown, only attrs (truthiness) known
 
 
 class Const:
@@ -206,7 +206,7 @@ class AbsEval:
                 return v.attrs['truthy']
             if 'empty' in v.attrs and v.k in ('str', 'bytes', 'bytearray', 'dict', 'list', 'tuple'):
                 return not v.attrs['empty']
-            if v.k == 'other':
+            if v.k in ('other', 'any'):
                 return v.attrs.get('truthy')
         return None
 
@@ -239,7 +239,7 @@ class AbsEval:
         if isinstance(v, Const):
             return kind_of_const(v.v)
         if isinstance(v, Kind):
-            return v.k
+            return None if v.k == 'any' else v.k
         return None
 
     def _call(self, e, _depth):
@@ -345,6 +345,10 @@ class AbsEval:
             except Exception:
                 return None
         for x, y in ((a, b), (b, a)):
+            if isinstance(x, Kind) and x.k == 'any':
+                if x.attrs.get('truthy') is False and isinstance(y, Const) and y.v:
+                    return False    # a falsy value never equals a truthy literal
+                return None
             if isinstance(x, Kind) and isinstance(y, Const):
                 ky = kind_of_const(y.v)
                 num = {'int', 'bool', 'float'}
